@@ -119,7 +119,14 @@ def configs(tier):
         add(link="k", K=1, mode="ack", nak=nak, size=L + 1, ack_limit=2, nak_limit=2, kinds=("drop", "dup", "delay"), cancels=1)
     for closure in (False, True):
         add(link="k", K=1, mode="unack", closure=closure, size=L + 1, check_limit=2, kinds=("drop", "dup", "delay"), cancels=1)
+    # fault handler overrides: a limit fault that is ignored must not turn missing data into a reported success
+    add(link="chaos", mode="ack", nak="def", size=L + 1, cks="null", ack_limit=1, nak_limit=1, kinds=(), faults_d={"NAK_LIMIT_REACHED": "ignore"})
+    add(link="chaos", mode="unack", closure=True, size=L + 1, cks="crc32", check_limit=1, kinds=flips, faults_d={"CHECK_LIMIT_REACHED": "ignore"})
     if tier == "thorough":
+        for cks, nak in itertools.product(("null", "mod", "crc32"), ("imm", "def")):
+            if (cks, nak) != ("null", "def"):
+                add(link="chaos", mode="ack", nak=nak, size=L + 1, cks=cks, ack_limit=1, nak_limit=1, kinds=(), faults_d={"NAK_LIMIT_REACHED": "ignore"})
+        add(link="chaos", mode="unack", closure=False, size=L + 1, cks="crc32c", check_limit=2, kinds=flips, faults_d={"CHECK_LIMIT_REACHED": "ignore"})
         for nak in ("imm", "def"):
             add(link="k", K=2, mode="ack", nak=nak, size=L + 1, ack_limit=3, nak_limit=3, kinds=("drop", "dup", "delay"), cancels=1)
             add(link="chaos", mode="ack", nak=nak, size=L + 1, cks="crc32", ack_limit=1, nak_limit=1, kinds=(), cancels=1)
